@@ -52,7 +52,7 @@ def run_files(V, wd, files, tag, variant="san"):
         lines = ["level 0"]
         for k in ids:
             lines += file_script(paths[k], k, fdir)
-        tp, rc, err = kv.run_kvdrive("\n".join(lines) + "\n", fdir, name, variant=variant, leaks=True, timeout=60 + 2 * len(ids))
+        tp, rc, err = kv.run_kvdrive("\n".join(lines) + "\n", fdir, name, variant=variant, leaks=True, timeout=60 + 2 * len(ids), hang_is_verdict=True)
         return tp, rc, err
 
     def do(bi):
@@ -64,7 +64,7 @@ def run_files(V, wd, files, tag, variant="san"):
             for k in ids:
                 tp1, rc1, err1 = run_batch([k], "s%d" % k)
                 if rc1 == 124:   # a hang counts only if it repeats with 4x the time on an idle core
-                    tp1, rc1, err1 = kv.run_kvdrive(open(os.path.join(fdir, "s%d.kv" % k)).read(), fdir, "s%d" % k, variant=variant, leaks=True, timeout=260)
+                    tp1, rc1, err1 = kv.run_kvdrive(open(os.path.join(fdir, "s%d.kv" % k)).read(), fdir, "s%d" % k, variant=variant, leaks=True, timeout=90, hang_is_verdict="retry")
                 singles.append((k, tp1, rc1, err1))
         return bi, tp, rc, err, singles
 
@@ -332,7 +332,7 @@ def run(tier, seed, which="C05"):
         for f in ("fasta", "msf", "clu"):
             lines.append("write 0 %s %s" % (f, os.path.join(edir, "m%d.%s" % (k, f))))
         lines += ["free 0", "note done%d" % k]
-        tp, rc, err = kv.run_kvdrive("\n".join(lines) + "\n", edir, "m%d" % k, variant="san", leaks=True, timeout=300)
+        tp, rc, err = kv.run_kvdrive("\n".join(lines) + "\n", edir, "m%d" % k, variant="san", leaks=True, timeout=300, hang_is_verdict="retry")
         return k, rc, err
     for k, rc, err in kv.pmap(many, range(len(extra)), workers=8):
         V.case("many:%d" % extra[k]["many"], True)
@@ -357,8 +357,8 @@ def run(tier, seed, which="C05"):
     def multi(k):
         lines = ["level 0", "note F%d" % k, "read 0 %s" % " ".join(combos[k]), "dump 0 in full", "run 0 2 5 -1 -1 -1", "dump 0 out full",
                  "write 0 fasta %s" % os.path.join(sdir, "m%d.out" % k), "free 0", "note done%d" % k]
-        tp, rc, err = kv.run_kvdrive("\n".join(lines) + "\n", sdir, "m%d" % k, variant="san", leaks=True, timeout=120)
-        rc2, so, se = kv.run_cli(combos[k] + ["-o", os.path.join(sdir, "c%d.out" % k)], variant="san", leaks=True, timeout=120)
+        tp, rc, err = kv.run_kvdrive("\n".join(lines) + "\n", sdir, "m%d" % k, variant="san", leaks=True, timeout=120, hang_is_verdict="retry")
+        rc2, so, se = kv.run_cli(combos[k] + ["-o", os.path.join(sdir, "c%d.out" % k)], variant="san", leaks=True, timeout=120, hang_is_verdict="retry")
         return k, rc, err, rc2, se.decode("utf-8", "replace")
     for k, rc, err, rc2, se in kv.pmap(multi, range(len(combos)), workers=8):
         V.case("multi:%d" % k, True)
